@@ -622,16 +622,16 @@ def check_drbg(ctx):
     os_cases = os_small + os_heavy                # the short ones first: they are what a report should show
     ((impl, st), (model_h, _), (spec_h, _), (model_l, _), (spec_l, _),
      (os_impl, os_st), (os_model_h, _), (os_spec_h, _), (os_model_s, _), (os_spec_s, _)) = par(
-        lambda: vlib.run_sharded(exe, cases, env=env, timeout=900),
-        lambda: vlib.run_sharded(mexe, heavy, shards=len(heavy) or 1, timeout=1500),
-        lambda: vlib.run_sharded(mexe, ["spec " + c for c in spec_heavy], shards=len(spec_heavy) or 1, timeout=1500),
-        lambda: vlib.run_sharded(mexe, light, shards=4, timeout=900),
-        lambda: vlib.run_sharded(mexe, ["spec " + c for c in light], shards=4, timeout=900),
-        lambda: vlib.run_sharded(oexe, os_cases, shards=4, env=env, timeout=900),
-        lambda: vlib.run_sharded(mexe, [no_app(c) for c in os_heavy], shards=len(os_heavy) or 1, timeout=1500),
-        lambda: vlib.run_sharded(mexe, ["spec " + no_app(c) for c in os_heavy], shards=len(os_heavy) or 1, timeout=1500),
-        lambda: vlib.run_sharded(mexe, [no_app(c) for c in os_small], shards=2, timeout=900),
-        lambda: vlib.run_sharded(mexe, ["spec " + no_app(c) for c in os_small], shards=2, timeout=900))
+        lambda: vlib.run_sharded(exe, cases, env=env, timeout=3600),
+        lambda: vlib.run_sharded(mexe, heavy, shards=len(heavy) or 1, timeout=5400),
+        lambda: vlib.run_sharded(mexe, ["spec " + c for c in spec_heavy], shards=len(spec_heavy) or 1, timeout=5400),
+        lambda: vlib.run_sharded(mexe, light, shards=4, timeout=3600),
+        lambda: vlib.run_sharded(mexe, ["spec " + c for c in light], shards=4, timeout=3600),
+        lambda: vlib.run_sharded(oexe, os_cases, shards=4, env=env, timeout=3600),
+        lambda: vlib.run_sharded(mexe, [no_app(c) for c in os_heavy], shards=len(os_heavy) or 1, timeout=5400),
+        lambda: vlib.run_sharded(mexe, ["spec " + no_app(c) for c in os_heavy], shards=len(os_heavy) or 1, timeout=5400),
+        lambda: vlib.run_sharded(mexe, [no_app(c) for c in os_small], shards=2, timeout=3600),
+        lambda: vlib.run_sharded(mexe, ["spec " + no_app(c) for c in os_small], shards=2, timeout=3600))
     vlib.sanitizer_reports(ctx, sub, st)
     sh = dict(zip(spec_heavy, spec_h))
     model = model_h + model_l
